@@ -1095,13 +1095,48 @@ def cursor_stage(ctx, bins, product=False):
         if st is None:
             continue
         logs.append((name, lp, cmd, cfg))
+    def split_by_layout(lp):
+        # one log per layout (each starts with its reset line): validated by monitors running in parallel
+        parts, fo, ncur = [], None, [0]
+        with open(lp) as fi:
+            for line in fi:
+                if line.startswith('{"k":"cur"'):
+                    ncur[0] += 1
+                if line.startswith('{"k":"reset"') or fo is None:
+                    if fo:
+                        fo.close()
+                    parts.append("%s.part%d" % (lp, len(parts)))
+                    fo = open(parts[-1], "w")
+                fo.write(line)
+        if fo:
+            fo.close()
+        return parts, ncur[0]
+
+    def validate(j):
+        parts, ncur = split_by_layout(j[1])
+        with ThreadPoolExecutor(max_workers=max(1, MON_PAR // max(1, len(logs)))) as ex2:
+            vs = list(ex2.map(lambda pp: run_cursor_monitor(ctx, pp), parts))
+        for k, pp in enumerate(parts):
+            for vi in vs[k]["viol"]:
+                vi["seq"] = "%d/%s" % (k, vi.get("seq"))
+            os.remove(pp)
+        return dict(lines=sum(v["lines"] for v in vs), seqs=ncur, viol=[vi for v in vs for vi in v["viol"]])
+
     with ThreadPoolExecutor(max_workers=MON_PAR) as ex:
-        verdicts = list(ex.map(lambda j: run_cursor_monitor(ctx, j[1]), logs))
+        verdicts = list(ex.map(validate, logs))
     for (name, lp, cmd, cfg), v in zip(logs, verdicts):
         ctx.stats["traces"] += v["seqs"]
         ctx.stats["events"] += v["lines"]
+        # C14: a typed query that disagrees with the cursor model while its ID-based twin (same component list, same
+        # per-query target, same layouts) agrees with it differs from the ID-based API
+        idbad = set((vi.get("seq"), vi.get("kind", "").replace("unsafe", "typed"), vi["cls"]) for vi in v["viol"]
+                    if vi.get("kind", "").startswith("unsafe"))
         for vi in v["viol"][:200]:
             ctx.violations.append(dict(cls=vi["cls"], detail=vi["d"], line=vi["l"], ops=None, cfg=cfg, family="cursor", cell=name, cmd=cmd))
+            k = vi.get("kind", "")
+            if k.startswith("typed") and vi["cls"][:4] in ("C03.", "C07.") and (vi.get("seq"), k, vi["cls"]) not in idbad:
+                ctx.violations.append(dict(cls="C14.query-step", detail="%s: %s %s" % (k, vi["cls"], vi["d"]), line=vi["l"], ops=None,
+                                           cfg=cfg, family="cursor", cell=name, cmd=cmd))
         ctx.stats["cells"].append(dict(family="cursor", cell=name, cfg=cfg, sequences=v["seqs"], events=v["lines"], max_calls=n))
     if product and len(logs) > 1:
         atomic_install(os.path.join(SPEC, "ArkProd.tla"), os.path.join(d, "ArkProd.tla"))
@@ -1593,6 +1628,8 @@ def check_c14(ctx):
         product_check(ctx, "C14", variants, extra, "c14-topup%d" % attempt, cover=cover)
         missing = [a for a in REQUIRED_API if cover.get(a, 0) == 0]
     ctx.stats["api_cover"] = cover
+    # every call sequence on Query1..8 and on the ID-based query with the same component list (ArkCursor)
+    cursor_stage(ctx, [("plain", b)])
     if missing:
         raise Inconclusive("generated API variants never exercised: %s" % ", ".join(missing))
     return finish(ctx, "product traces typed vs ID-based")
